@@ -1314,13 +1314,29 @@ class ServiceAnnouncer:
             instance.start()
         self.announcing_services.append(instance)
 
-    def stop_announce_service(self, instance: ServiceInstance, send_stop=True) -> None:
+    def stop_announce_service(
+        self,
+        instance: typing.Union[ServiceInstance, someip.config.Service],
+        listener: typing.Union[ServerServiceListener, bool, None] = None,
+        send_stop=True,
+    ) -> None:
         """
         stops announcing previously started service
 
-        :param instance: service instance to be stopped
+        :param instance: service instance to be stopped, or the service description it
+          was created from (as passed by :meth:`someip.service.SimpleService.stop_announce`)
+        :param listener: with a service description: the listener of the instance
         :raises ValueError: if the service was not announcing
         """
+        if isinstance(listener, bool):  # former positional send_stop
+            send_stop, listener = listener, None
+        if not isinstance(instance, ServiceInstance):
+            for candidate in self.announcing_services:
+                if candidate.service == instance and candidate.listener is listener:
+                    instance = candidate
+                    break
+            else:
+                raise ValueError(f"{instance} is not announcing")
         self.announcing_services.remove(instance)
         if send_stop and self.started:
             instance.stop()
